@@ -113,32 +113,6 @@ theorem C19_counterexample_first_occurrence :
       ∧ (persistOccFirst [] [(1, 11), (5, 50), (1, 12), (6, 60), (1, 13), (7, 70)]).get 1 = some 11 := by
   decide
 
-/-! ### recycled ids: a later acknowledged write replaces the whole stored record -/
-
-/-- the seeded history: `(1)-[KNOWS]->(2)` created and returned (edge 1), node 3 created, the
-relationship deleted (not durable), then `(2)-[LIKES {w:7}]->(3)` created and returned — it gets
-the recycled id 1 -/
-def ex_recycle : List Req :=
-  [q .resp .create [.putNode 1 10, .putNode 2 20, .putEdge 1 ⟨1, 2, 30⟩] [1, 2] [1],
-   q .resp .create [.putNode 3 40] [3] [],
-   q .resp .delete [.delEdge 1] [] [],
-   q .resp .create [.putEdge 1 ⟨2, 3, 31⟩] [] [1]]
-
-/-- On the model (and on the code) the record under the recycled id is the new relationship in
-every component, endpoints included; nothing of the old holder survives, and there is no blame.
-(An instance of `C19_returned_stored_final`: the stored record is the whole entity.) -/
-theorem C19_recycled_id_overwritten :
-    recEdge (run ex_recycle) 1 = some ⟨2, 3, 31⟩ ∧ (run ex_recycle).mem.edges.get 1 = some ⟨2, 3, 31⟩
-      ∧ finalBlameE (run ex_recycle) 1 = none := by decide
-
-/-- "An id already stored is a property update" keeps the old endpoints: `1 -> 2` with the new
-content instead of `2 -> 3`. -/
-theorem C19_counterexample_keep_endpoints :
-    let st := run ex_recycle
-    let old : G := { nodes := [(1, 10), (2, 20), (3, 40)], edges := [(1, ⟨1, 2, 30⟩)] }
-    (persistEdgeKeepEndpoints st.mem old 1).edges.get 1 = some ⟨1, 2, 31⟩
-      ∧ (persistEdge st.mem old 1).edges.get 1 = some ⟨2, 3, 31⟩ := by decide
-
 theorem specDurableAt_map {α : Type} [DecidableEq α] (ids : List Nat) (f g : Nat → Option α)
     (h : ∀ id, f id = g id) (k : Nat) :
     specDurableAt (ids.map (fun id => (g id, f id))) k = none := by
@@ -228,6 +202,32 @@ theorem C19_counterexample_endpoint :
 /-- the executable specification rejects such observations -/
 theorem C19_spec_rejects_loss :
     specDurable (probeN (run [q .resp .create [.putNode 1 10] [] []]) [1]) = false := by decide
+
+/-! ### recycled ids: a later acknowledged write replaces the whole stored record -/
+
+/-- the seeded history: `(1)-[KNOWS]->(2)` created and returned (edge 1), node 3 created, the
+relationship deleted (not durable), then `(2)-[LIKES {w:7}]->(3)` created and returned — it gets
+the recycled id 1 -/
+def ex_recycle : List Req :=
+  [q .resp .create [.putNode 1 10, .putNode 2 20, .putEdge 1 ⟨1, 2, 30⟩] [1, 2] [1],
+   q .resp .create [.putNode 3 40] [3] [],
+   q .resp .delete [.delEdge 1] [] [],
+   q .resp .create [.putEdge 1 ⟨2, 3, 31⟩] [] [1]]
+
+/-- On the model (and on the code) the record under the recycled id is the new relationship in
+every component, endpoints included; nothing of the old holder survives, and there is no blame.
+(An instance of `C19_returned_stored_final`: the stored record is the whole entity.) -/
+theorem C19_recycled_id_overwritten :
+    recEdge (run ex_recycle) 1 = some ⟨2, 3, 31⟩ ∧ (run ex_recycle).mem.edges.get 1 = some ⟨2, 3, 31⟩
+      ∧ finalBlameE (run ex_recycle) 1 = none := by decide
+
+/-- "An id already stored is a property update" keeps the old endpoints: `1 -> 2` with the new
+content instead of `2 -> 3`. -/
+theorem C19_counterexample_keep_endpoints :
+    let st := run ex_recycle
+    let old : G := { nodes := [(1, 10), (2, 20), (3, 40)], edges := [(1, ⟨1, 2, 30⟩)] }
+    (persistEdgeKeepEndpoints st.mem old 1).edges.get 1 = some ⟨1, 2, 31⟩
+      ∧ (persistEdge st.mem old 1).edges.get 1 = some ⟨2, 3, 31⟩ := by decide
 
 /-! ### Non-vacuity of `C19_partial` -/
 
